@@ -443,6 +443,48 @@ fn run_program(p: &Program, prop_c17: bool) -> ExecResult {
     if w.entities().verif_snapshot() != snap1 || lazy_log.lock().unwrap().len() != ran.len() {
         fail("leftover: a second maintain changed something".into());
     }
+    // second frame, sequential: whatever the concurrent frame left behind in the allocator must
+    // not hand out a living entity's handle (creations through shared access dig through the
+    // whole free list and two fresh indices)
+    {
+        let mut sf: Vec<String> = vec![];
+        let before: Vec<Entity> = got.clone();
+        let k = n_slots + 2;
+        let mut second: Vec<Entity> = vec![];
+        let r = crate::util::catch(|| {
+            let ents = w.entities();
+            for _ in 0..k {
+                let e = ents.create();
+                second.push(e);
+            }
+        });
+        if r.is_err() {
+            sf.push("panic: creation through shared access panicked in the frame after the concurrent one".into());
+        }
+        for (i, e) in second.iter().enumerate() {
+            if before.contains(e) || second[..i].contains(e) {
+                sf.push(format!("duplicate-handle: in the frame after the concurrent one, creation returned {:?}, the handle of an entity that is already alive (alive {:?}, created so far {:?})", e, before, &second[..i]));
+            }
+            if !w.entities().is_alive(*e) {
+                sf.push(format!("second-frame: {:?} not alive for its creator", e));
+            }
+        }
+        if sf.is_empty() {
+            if crate::util::catch(|| w.maintain()).is_err() {
+                sf.push("panic: maintain panicked after the second frame".into());
+            } else {
+                let mut expect2: Vec<Entity> = before.iter().chain(second.iter()).copied().collect();
+                expect2.sort_by_key(|e| e.id());
+                let got2: Vec<Entity> = (&*w.entities()).join().collect();
+                if got2 != expect2 {
+                    sf.push(format!("second-frame: alive set {:?}, expected {:?}", got2, expect2));
+                }
+            }
+        }
+        for m in sf {
+            fail(m);
+        }
+    }
     if let Some(e) = ledger_errors().into_iter().next() {
         fail(format!("ledger: {}", e));
     }
